@@ -25,7 +25,7 @@ RULE = ("domains ma1 (STRIPS, shared (lit), negative preconditions), ma2 (numeri
         "per slot (not all nop) x every state over the atoms/fluents the members mention (<= 7 atoms, fluents on a grid) "
         "x every permutation of the slots; judged: all members applicable + non-interfering (equality with the sequential "
         "result), exactly one member inapplicable (refusal / allow switch); single-slot joint actions incl. [nop]; exported "
-        "joint trajectories of all 1-2 step joint plans from the initial state. non-trivial = a joint action with >= 2 "
+        "joint trajectories of all 1-2 step joint plans from the initial state (incl. all-idle steps, a parameterless member, the same plans read from bracketed / plain files with and without a final line end, strict-lenient-strict on one exporter); ma2b = ma2 without a numeric requirement flag. non-trivial = a joint action with >= 2 "
         "non-nop members")
 ASSUMPTIONS = ["interference is defined semantically (every member order executable and confluent in that state)",
                "all-applicable but interfering joint actions are outside the quantifier (counted, not judged)",
